@@ -171,20 +171,25 @@ Theorem C13_gen_is_ref : forall P : prims,
   (forall st, gen_default_execution_policy P st = ref_default_execution_policy P st) /\
   (forall tw st, gen_invoke_subrequest P tw st = ref_invoke_subrequest P tw st) /\
   (forall k st, gen_error_handler P k st = ref_error_handler P k st) /\
-  (forall st, gen_excview_tween P st = ref_excview_tween P st).
+  (forall st, gen_excview_tween P st = ref_excview_tween P st) /\
+  (forall k rr st, gen_invoke_exception_view P k rr st = ref_invoke_exception_view P k rr st) /\
+  (forall st, gen_handle_request P st = ref_handle_request P st).
 Proof. exact gen_is_ref. Qed.
 Print Assumptions C13_gen_is_ref.
 
 (* with the leaves of the pipeline interpreter, the generated programs are the hand-written model: per request
    (any level, any subrequest behaviour, the tween chain being the model's) ... *)
-Theorem C13_gen_request_is_model : forall ev l sc subrun chain,
+Theorem C13_gen_request_is_model : forall ev l sc subrun chain hr,
   (forall st, chain st = tween_chain ev l sc subrun st) ->
-  let P := prims_of ev l sc subrun chain in
+  (forall st, hr st = handle_request l sc (vsub sc subrun) st) ->
+  let P := prims_of ev l sc subrun chain hr in
+  (forall st, gen_handle_request P st = handle_request l sc (vsub sc subrun) st) /\
+  (forall k st, gen_error_handler P k st = error_handler ev l sc k st) /\
   (forall tw st, gen_invoke_request P tw st = invoke_request ev l sc tw subrun st) /\
   (forall tw st, gen_invoke_subrequest P tw st = frame l (invoke_request ev l sc tw subrun) st) /\
   (forall st, gen_default_execution_policy P st = frame l (invoke_request ev l sc true subrun) st) /\
   (forall st, gen_excview_tween P st =
-              excview_tween ev l sc (tween l sc P_UNDER_IN P_UNDER_OUT (handle_request l sc subrun)) st) /\
+              excview_tween ev l sc (tween l sc P_UNDER_IN P_UNDER_OUT (handle_request l sc (vsub sc subrun))) st) /\
   (forall st, gen_process_response_callbacks P st = resp_loop l sc st) /\
   (forall st, gen_process_finished_callbacks P st = fin_loop l sc st).
 Proof. exact gen_request_is_model. Qed.
@@ -237,10 +242,7 @@ Print Assumptions C13_retry_first_attempt_judged.
    attempt runs what is pending at the end of its try body once, in order, after everything else of the attempt and
    leaves the deque empty; so the second attempt starts empty and runs at its end exactly what was registered
    during it.
-   TODO (unproved): the full statement  run_retry ev mode sc1 sc2 [] = (st, r) -> valid_level sc1 = true ->
-   valid_level sc2 = true -> judge_retry sc1 sc2 (N.of_nat (length (stk st))) (log st) = true  (needs
-   request_judged generalised to non-zero callback counters and response callbacks left pending; judge_retry is
-   evaluated on the model's own run in every retry case of the correspondence run) *)
+   (the full statement is C13_retry_judged below) *)
 Theorem C13_retry_finished_callbacks : forall ev mode sc1 sc2 st st' r,
   quiet_fin sc1 -> quiet_fin sc2 ->
   retry_body (invoke_request ev 0 sc1 true None) (invoke_request ev 0 sc2 true None) mode st = (st', r) ->
@@ -262,3 +264,49 @@ Theorem C13_gen_run_retry_is_model : forall ev mode sc1 sc2 s0,
   gen_run_retry ev mode sc1 sc2 s0 = run_retry ev mode sc1 sc2 s0.
 Proof. exact gen_run_retry_is_model. Qed.
 Print Assumptions C13_gen_run_retry_is_model.
+
+(* ---- one pass of a request object through invoke_request from ANY carried-over state (callback counters nr / nf,
+   response callbacks still pending in rq; finished deque empty): its events satisfy judge_pass for exactly those
+   counters and left-over callbacks, contain no retry marker, conserve the response deque, and leave the finished
+   deque empty unless a finished callback is told to raise *)
+Theorem C13_pass_judged : forall sc, valid_level sc = true -> forall ev st st' r,
+  fq st = [] ->
+  invoke_request ev 0 sc true None st = (st', r) ->
+  exists new, log st' = log st ++ new /\ Forall (fun e => e_lvl e = 0%N) new /\
+    (Forall (fun e => e_cur e = true) new -> judge_pass sc (nr st) (nf st) (rq st) new = true) /\
+    Forall (fun e => is_pt P_RETRY e = false) new /\
+    cons sc st st' new /\
+    (has_fault sc P_FIN_CB = false -> fq st' = []).
+Proof. exact pass_full. Qed.
+Print Assumptions C13_pass_judged.
+
+(* the retried request, in full: for every pair of valid scenarios, both modes, every exception-view configuration,
+   the run satisfies judge_retry (depth 0; each attempt judged as a request of its own, the second one with the
+   counters and the response callbacks the first one left behind) *)
+Theorem C13_retry_judged : forall ev mode sc1 sc2 st r,
+  valid_level sc1 = true -> valid_level sc2 = true ->
+  run_retry ev mode sc1 sc2 [] = (st, r) ->
+  judge_retry sc1 sc2 (N.of_nat (length (stk st))) (log st) = true.
+Proof. exact retry_judged. Qed.
+Print Assumptions C13_retry_judged.
+
+Theorem C13_gen_retry_judged : forall ev mode sc1 sc2 st r,
+  valid_level sc1 = true -> valid_level sc2 = true ->
+  gen_run_retry ev mode sc1 sc2 [] = (st, r) ->
+  judge_retry sc1 sc2 (N.of_nat (length (stk st))) (log st) = true.
+Proof. exact gen_retry_judged. Qed.
+Print Assumptions C13_gen_retry_judged.
+
+(* ---- when a finished callback raises (documented: the remaining ones do not run).  What the code guarantees, and
+   what the judge now demands instead of being silent: the finished callbacks that ran are a prefix of the pending +
+   registered ones, each once, in order, after everything else of the request; the run stops short ONLY at a callback
+   that raises (the last one that ran); its exception propagates; the rest stays pending *)
+Theorem C13_finished_callbacks_prefix_when_one_raises : forall l sc, valid_level sc = true -> forall st st' k,
+  fin_loop l sc st = (st', Ex k) ->
+  exists evs rest,
+    log st' = log st ++ evs /\ Forall (fun e => e_pt e = P_FIN_CB /\ e_lvl e = l) evs /\
+    fq st ++ registered_from 1 (s_regs sc) 0 (nf st) evs = map e_aux evs ++ rest /\
+    evs <> [] /\ find_fault (s_faults sc) P_FIN_CB (nf st + N.of_nat (length evs) - 1) <> 0%N /\
+    has_fault sc P_FIN_CB = true.
+Proof. exact fin_loop_raising. Qed.
+Print Assumptions C13_finished_callbacks_prefix_when_one_raises.
